@@ -128,9 +128,11 @@ def interpolate_dataset(
     if periodic_coordinates is None:
         periodic_coordinates = {longitude_variable_in_dataset: 360}
 
-    for variable in data_set:
-        if "direction" in str(variable).lower():
-            periodic_data = {variable: (360, 360)}
+    if periodic_data is None:
+        periodic_data = {}
+        for variable in data_set:
+            if "direction" in str(variable).lower():
+                periodic_data[variable] = (360, 360)
 
     out = {}
     for name, track in geometry.tracks.items():
